@@ -12,7 +12,9 @@ VARIABLE h       \* [init |-> "absent" | "present", ops |-> Seq([kind, base])]
 (*        bad : unparseable content;  ext : another program rewrites the file                 *)
 (* bases: none | current (hash of what the file holds when the call is made) | stale (hash of  *)
 (*        an older content) | future (hash of the content this very call would install)       *)
-OpsOf == {[kind |-> k, base |-> b] : k \in Kinds \ {"ext"}, b \in Bases} \cup (IF "ext" \in Kinds THEN {[kind |-> "ext", base |-> "none"]} ELSE {})
+(*        ext_empty : another program truncates the file to zero bytes (it still exists)       *)
+External == {"ext", "ext_empty"}
+OpsOf == {[kind |-> k, base |-> b] : k \in Kinds \ External, b \in Bases} \cup {[kind |-> k, base |-> "none"] : k \in Kinds \cap External}
 
 Init == \E i \in {"absent", "present"} : h = [init |-> i, ops |-> <<>>]
 Extend == Len(h.ops) < MaxLen /\ \E o \in OpsOf : h' = [h EXCEPT !.ops = Append(@, o)]
@@ -24,7 +26,7 @@ EmitCase == IF h.ops # <<>> THEN PrintT(ToJson(h)) ELSE TRUE
 St0(init) == [exists |-> init = "present", canon |-> FALSE]
 CasPasses(st, o) == ~st.exists \/ o.base \in {"none", "current"}        \* documented: base_hash only binds an existing file
 Expected(st, o) ==      \* [status, code, st']   code "-" = any
-  CASE o.kind = "ext" -> [status |-> "ext", code |-> "-", st |-> [exists |-> TRUE, canon |-> FALSE]]
+  CASE o.kind \in External -> [status |-> "ext", code |-> "-", st |-> [exists |-> TRUE, canon |-> FALSE]]
     [] o.kind \in {"changes", "normalize"} /\ ~st.exists -> [status |-> "error", code |-> "E_FILE", st |-> st]
     [] o.kind = "bad" -> [status |-> "error", code |-> "-", st |-> st]
     [] ~CasPasses(st, o) -> [status |-> "error", code |-> "E_HASH", st |-> st]
